@@ -37,7 +37,7 @@ CONSTANTS
   SmpChoices,     \* subset of BOOLEAN for roots
   CrossThread,    \* may a thread use span handles created by another thread?
   TrackCut,       \* feed ring pushes / drains to the ghost (needed for the cut signature)
-  FixRecv, FixFifo, FixCancelDefault, FixEmptyToken, FixStackFull, FixForceStart, FixReentrant, FixInSpan, FixExitOrder,
+  FixRecv, FixFifo, FixCancelDefault, FixEmptyToken, FixStackFull, FixForceStart, FixReentrant, FixInSpan, FixExitOrder, FixWithLine,
   AdapterKinds, InnerKinds, MaxFuts, MaxPolls, DistinctOps,
   Prefix,         \* TRUE: Prog is only how every behaviour begins; the menu takes over afterwards
   Mut,            \* "none", or the name of a deliberately wrong variant of one action (see Mutants below)
@@ -76,8 +76,9 @@ vars == <<tst, reg, ring, pend, cur, inop, stack, hs, spans, lsets, pushed, futs
 \* end in the same state and only one of them would be printed for replay
 OpNames == [i \in DOMAIN hist |-> IF "op" \in DOMAIN hist[i]
                                   THEN <<hist[i].op, IF "h" \in DOMAIN hist[i] THEN hist[i].h ELSE 0,
-                                         IF "evt" \in DOMAIN hist[i] THEN Len(hist[i].evt.props) ELSE 0>>
-                                  ELSE <<hist[i].ev, 0, 0>>]
+                                         IF "evt" \in DOMAIN hist[i] THEN Len(hist[i].evt.props) ELSE 0,
+                                         "re" \in DOMAIN hist[i] /\ hist[i].re>>
+                                  ELSE <<hist[i].ev, 0, 0, FALSE>>]
 view == <<tst, reg, ring, pend, cur, inop, stack, hs, spans, lsets, pushed, futs, cph, ci, batch, cown, active,
           nid, nops, natt, ncyc, nfl, pc, quiet, a, IF DistinctOps THEN OpNames ELSE <<>>>>
 
@@ -397,19 +398,32 @@ LProps(t, re) ==
   /\ UNCHANGED <<spans, lsets, futs, pushed, hs>>
 
 \* LocalSpan::with_properties on the innermost local span the caller holds
-LWith(t, re) ==
-  LET x == TopH(t) n == New(t)
-      boom == re /\ x.live /\ ~FixReentrant IN
-  /\ hs[t] # <<>> /\ x.k = "l"
+\* LocalSpan::with_properties on the local span held at position i of the thread's handles - not necessarily
+\* the innermost: a scope opened after the span was entered may still be alive above it (released in
+\* reverse order all the same).  The span lives on the line that was on top when it was entered; the
+\* pinned code looks at the current line instead (debug assertion on the line's epoch).
+LWithAt(t, re, i) ==
+  LET x == hs[t][i] n == New(t)
+      li == Cardinality({j \in 1..(i - 1) : hs[t][j].k \in {"g", "c"} /\ hs[t][j].live})
+      onTop == li = Len(stack[t])
+      boom == (re /\ x.live /\ ~FixReentrant) \/ (x.live /\ ~onTop /\ ~FixWithLine) IN
+  /\ x.k = "l"
   /\ AttOk /\ natt' = natt + 1
-  /\ stack' = IF x.live
-              THEN SetTop(t, [Top(t) EXCEPT !.q = [j \in DOMAIN @ |-> IF @[j].id = x.n THEN [@[j] EXCEPT !.props = Append(@, KV(n))] ELSE @[j]]])
+  /\ stack' = IF x.live /\ li >= 1 /\ (onTop \/ FixWithLine)
+              THEN [stack EXCEPT ![t][li].q = [j \in DOMAIN @ |-> IF @[j].id = x.n THEN [@[j] EXCEPT !.props = Append(@, KV(n))] ELSE @[j]]]
               ELSE stack
   /\ Bump(t)
   /\ Begin(t, <<>>, Ev(t, "lwith") @@ [l |-> x.n, kvs |-> <<KV(n)>>, re |-> re],
-           (IF boom THEN [panic |-> "already borrowed: BorrowMutError"] ELSE A!EmptyFn) @@
+           (IF boom THEN [panic |-> IF re /\ ~FixReentrant THEN "already borrowed: BorrowMutError" ELSE "assertion `left == right` failed"] ELSE A!EmptyFn) @@
            Rt(t, "lwith") @@ [l |-> x.n, kvs |-> <<KV(n)>>, cc |-> IF x.live THEN 1 ELSE 0])
   /\ UNCHANGED <<spans, lsets, futs, pushed, hs>>
+\* Known finding D20: on the pinned code the call on a span that is not the innermost handle fails a debug
+\* assertion - and the span's destructor fails it again while unwinding, which aborts the process - or,
+\* without debug assertions, drops the properties.  The repository's own unit test
+\* unmatched_span_line_add_properties expects that panic, so there is no repair that keeps the suite
+\* unedited.  The replayed instances therefore only call it on the innermost handle; the general case
+\* is shown on the real code by `fvharness withline` (one child process) in check C07.
+LWith(t, re) == \E i \in DOMAIN hs[t] : (FixWithLine \/ i = Len(hs[t])) /\ LWithAt(t, re, i)
 
 \* Span::add_event / add_properties: a pseudo child span submitted at once
 SAttach(t, h, kind, withp) ==
